@@ -501,6 +501,56 @@ def gen_tjc(rng, cases, P):
 
 
 
+
+SAMP_SETS = [[(2, 2), (1, 1), (1, 1)], [(2, 1), (1, 1), (1, 1)], [(1, 2), (1, 1), (1, 1)], [(4, 1), (1, 1), (1, 1)], [(1, 4), (1, 1), (1, 1)],
+             [(4, 2), (2, 1), (1, 1)], [(2, 2), (2, 1), (1, 2)], [(2, 2), (1, 1), (1, 1), (2, 2)], [(2, 1), (1, 1)], [(1, 1), (2, 2), (1, 1)],
+             [(4, 1), (2, 1), (1, 1), (1, 1)], [(1, 1), (1, 1), (1, 1)], [(2, 2)]]
+ODD_SETS = [[(3, 1), (1, 2), (1, 1)], [(3, 2), (2, 1), (1, 1)], [(2, 3), (1, 1), (3, 1)], [(4, 1), (3, 1), (1, 1)], [(1, 3), (1, 2)], [(3, 3), (1, 1)]]
+
+
+def multi_scan_script(rng, nc, prec):
+    fam = rng.choice(["simple", "percomp", "mixed", "prog"])
+    if fam == "simple":                      # jpeg_simple_progression's all-purpose shape
+        dc = [list(range(nc))] if nc <= 4 else [[c] for c in range(nc)]
+        sc = [(g, 0, 0, 0, 1) for g in dc] + [([c], 1, 5, 0, 2) for c in range(nc)] + [([c], 6, 63, 0, 2) for c in range(nc)] + \
+             [([c], 1, 63, 2, 1) for c in range(nc)] + [(g, 0, 0, 1, 0) for g in dc] + [([c], 1, 63, 1, 0) for c in range(nc)]
+    elif fam == "percomp":
+        sc = [([c], 0, 63, 0, 0) for c in rng.shuffle(range(nc))]
+    elif fam == "mixed":
+        sc = [tuple(x) for x in gen_seq_script(rng, nc, False, prec)]
+    else:
+        sc = gen_prog_script(rng, nc, 13 if prec == 12 else 10)
+    return [scan_s(*x) for x in sc], fam
+
+
+def gen_rst(rng, cases):
+    """restart_in_rows x multi-scan scripts x subsamplings x entropy coders; reference = the restart-free encoding"""
+    raw = 1 if rng.chance(1, 3) else 0
+    hv = list(rng.choice(ODD_SETS if (raw and rng.chance(1, 2)) else SAMP_SETS))
+    nc = len(hv)
+    prec = 8 if rng.chance(5, 6) else 12
+    script, fam = multi_scan_script(rng, nc, prec)
+    arith, opt = (1, 0) if rng.chance(1, 4) else (0, rng.below(2))
+    rir = rng.choice([1, 1, 2, 3, 4, 65535, 70000])
+    ri = rng.choice([0, 0, 0, 5])
+    W, H = rng.range(17, 90), rng.range(9, 70)
+    line = setup_line(W, H, nc, nc, prec, 0, raw, arith, opt, 0, ri, rir, hv, script)
+    cases.append(("rst" + line[5:], "rst-" + fam, {"nscans": len(script)}))
+
+
+def gen_raw(rng, cases):
+    """raw-data input offering num_lines = iMCU height, 2x, 3x, image height, iMCU+1 with the documented caller loop"""
+    hv = list(rng.choice(SAMP_SETS + ODD_SETS))
+    nc = len(hv)
+    prec = 8 if rng.chance(5, 6) else 12
+    script = None
+    if rng.chance(1, 4):
+        script, _ = multi_scan_script(rng, nc, prec)
+    arith, opt = (1, 0) if rng.chance(1, 4) else (0, 1 if rng.chance(1, 4) else 0)
+    W, H = rng.range(1, 70), rng.choice([1, 7, 8, 9, 16, 17, 31, 33, 64, 65, 100])
+    line = setup_line(W, H, nc, nc, prec, 0, 1, arith, opt, 0, rng.choice([0, 0, 3]), rng.choice([0, 0, 1]), hv, script)
+    cases.append(("raw %d" % rng.range(0, 4) + line[5:], "raw", {"nscans": len(script) if script else 1}))
+
 # ------------------------------------------------------------- programs: several images on one object
 def gen_seq(rng, cases):
     """gray -> YCbCr -> CMYK/YCCK -> 5..10-component JCS_UNKNOWN and back, progressive via jpeg_simple_progression
@@ -603,13 +653,17 @@ def oracle_verdict(kind, meta, line):
         return "stream does not end with EOI"
     if f.get("warn") != "0":
         return "own decompressor reports %s warning(s)" % f.get("warn")
+    if "same" in f and f["same"] != "1":
+        return {"0": "coefficients differ from the reference encoding (no restarts / one iMCU row per call)",
+                "-1": "stream or reference stream cannot be read back by jpeg_read_coefficients",
+                "-2": "reference encoding failed although this one succeeded"}.get(f["same"], "same=" + f["same"])
     if f.get("exact") == "0":
         return "lossless stream does not decode to the samples that were compressed"
     exp, dec = f.get("exp", "").split("x"), f.get("dec", "").split("x")
     if len(exp) == 3 and len(dec) == 3:
         if exp[:2] != dec[:2] or (exp[2] != "0" and exp[2] != dec[2]):
             return "decoded dimensions %s differ from the declared %s" % (f.get("dec"), f.get("exp"))
-    if kind.startswith("setup-") and isinstance(meta, dict) and meta.get("nscans") and f.get("scans") and \
+    if (kind.startswith("setup-") or kind.startswith("rst-") or kind == "raw") and isinstance(meta, dict) and meta.get("nscans") and f.get("scans") and \
             int(f["scans"]) != meta["nscans"]:
         return "stream has %s scans, script has %d" % (f["scans"], meta["nscans"])
     return None
@@ -621,6 +675,10 @@ def sig_of(tag, kind, bad):
         return "restart-interval-gt-65535"
     if kind == "blk-missing" or (tag or "").startswith("huff-missing-code"):
         return "huff-missing-code"
+    if kind.startswith("rst-") or kind == "corpus-rst":
+        return "restart-multiscan:" + bad[:30]
+    if kind in ("raw", "corpus-raw"):
+        return "raw-data-rows:" + bad[:30]
     if kind in ("ll", "corpus-ll"):
         return "lossless-bad-output:" + bad[:40]
     return "bad-output:%s:%s" % (tag or kind, bad[:40])
@@ -691,6 +749,10 @@ def run(ctx):
         gen_seq(rng, cases)
     for _ in range(ctx.n(300, 8000)):
         gen_ll(rng, cases)
+    for _ in range(ctx.n(250, 6000)):
+        gen_rst(rng, cases)
+    for _ in range(ctx.n(250, 6000)):
+        gen_raw(rng, cases)
     return run_cases(ctx, cases, exes, drv, flavours)
 
 
